@@ -123,11 +123,12 @@ def rewrite_catalogue(tier):
     rc, out = C.run_tlc("Rewrites.tla", cfg=cfg, timeout=1500)
     rules = re.findall(r'<<"RULE", "(\w+)", (\d+), (\d+)>>', out)
     ctl = re.search(r'<<"CONTROL", (\d+), (\d+), (\d+)>>', out)
-    if not rules or not ctl or '<<"DONE"' not in out:
+    ctl2 = re.search(r'<<"CONTROL2", (\d+), (\d+)>>', out)
+    if not rules or not ctl or not ctl2 or '<<"DONE"' not in out:
         raise C.MachineryError("Rewrites.tla did not complete:\n" + out[-2000:])
     failing = sorted({r for r, w, n in rules if int(n) > 0})
     return {"rules": len({r for r, _, _ in rules}), "obligations": len(rules), "failing_rules": failing,
-            "negative_controls_counterexamples": [int(x) for x in ctl.groups()]}
+            "negative_controls_counterexamples": [int(x) for x in ctl.groups() + ctl2.groups()]}
 
 
 def fpstr_outcomes(R, tier, seed):
